@@ -57,7 +57,7 @@ theorem statted_ok {fs : FS} {p y : Str} (h : statted fs p = .ok y) : y = p := b
   exact h.symm
 
 theorem namedTarget_ok {sf : SpokFile} {cwd : Str} {fs : FS} {n y : Str} (h : namedTarget sf cwd fs n = .ok y) :
-    ∃ v, lookupVar sf.vars n = some v ∧ y = abs cwd v := by
+    ∃ v, lookupVar sf.vars n = some v ∧ y = absP sf cwd v := by
   unfold namedTarget at h
   split at h
   · simp at h
@@ -67,7 +67,7 @@ theorem namedTarget_ok {sf : SpokFile} {cwd : Str} {fs : FS} {n y : Str} (h : na
 /-- per task: the designated paths of that task, in the order the code collects them -/
 def taskDesignated (sf : SpokFile) (cwd : Str) (t : Task) : List Str :=
   t.globOutputs.flatMap (globTargets sf cwd) ++ t.fileOutputs.map (fileTarget sf cwd) ++
-  t.namedOutputs.filterMap (fun n => (lookupVar sf.vars n).map (abs cwd))
+  t.namedOutputs.filterMap (fun n => (lookupVar sf.vars n).map (absP sf cwd))
 
 theorem designatedList_eq (sf : SpokFile) (cwd : Str) :
     designatedList sf cwd = sf.tasks.flatMap (taskDesignated sf cwd) ++ [sf.cacheDir] := rfl
@@ -85,7 +85,7 @@ theorem taskTargets_ok {sf : SpokFile} {cwd : Str} {fs : FS} {t : Task} {r : Lis
       subst h
       have h1 : fl = t.fileOutputs.map (fileTarget sf cwd) :=
         mapE_ok (fun x _ y hy => statted_ok hy) hfl
-      have h2 : nm = t.namedOutputs.filterMap (fun n => (lookupVar sf.vars n).map (abs cwd)) := by
+      have h2 : nm = t.namedOutputs.filterMap (fun n => (lookupVar sf.vars n).map (absP sf cwd)) := by
         clear hfl h1
         generalize t.namedOutputs = ns at hnm
         induction ns generalizing nm with
@@ -181,18 +181,18 @@ theorem targets_total {sf : SpokFile} {cwd : Str} {fs : FS}
         hstat _ (hmem _ (List.mem_append_left _ (List.mem_append_right _ (List.mem_map.2 ⟨o, ho, rfl⟩))))
       simp [statted, this]
     have h2 : mapE (namedTarget sf cwd fs) t.namedOutputs =
-        .ok (t.namedOutputs.map (fun n => abs cwd ((lookupVar sf.vars n).getD []))) := by
+        .ok (t.namedOutputs.map (fun n => absP sf cwd ((lookupVar sf.vars n).getD []))) := by
       apply mapE_total
       intro n hn
       obtain ⟨v, hv⟩ := hdef t ht n hn
-      have : statErr fs (pathOf (abs cwd v)) = false :=
+      have : statErr fs (pathOf (absP sf cwd v)) = false :=
         hstat _ (hmem _ (List.mem_append_right _ (List.mem_filterMap.2 ⟨n, hn, by simp [hv]⟩)))
       simp [namedTarget, hv, statted, this]
-    have h3 : t.namedOutputs.map (fun n => abs cwd ((lookupVar sf.vars n).getD [])) =
-        t.namedOutputs.filterMap (fun n => (lookupVar sf.vars n).map (abs cwd)) := by
+    have h3 : t.namedOutputs.map (fun n => absP sf cwd ((lookupVar sf.vars n).getD [])) =
+        t.namedOutputs.filterMap (fun n => (lookupVar sf.vars n).map (absP sf cwd)) := by
       have : ∀ ns : List Str, (∀ n ∈ ns, ∃ v, lookupVar sf.vars n = some v) →
-          ns.map (fun n => abs cwd ((lookupVar sf.vars n).getD [])) =
-          ns.filterMap (fun n => (lookupVar sf.vars n).map (abs cwd)) := by
+          ns.map (fun n => absP sf cwd ((lookupVar sf.vars n).getD [])) =
+          ns.filterMap (fun n => (lookupVar sf.vars n).map (absP sf cwd)) := by
         intro ns
         induction ns with
         | nil => simp
@@ -243,18 +243,21 @@ theorem cleanAbs_cacheDir {sf : SpokFile} (hd : isAbs sf.dir = true) : CleanAbs 
 theorem cleanAbs_path {sf : SpokFile} (hd : isAbs sf.dir = true) : CleanAbs sf.path :=
   cleanAbs_join hd
 
+/-- what `physical` returns is again a clean absolute path (`EvalSymlinks` + `Join`) -/
+def PhysOk (sf : SpokFile) : Prop := ∀ s, CleanAbs s → CleanAbs (sf.phys s)
+
 theorem cleanAbs_designated {sf : SpokFile} {cwd d : Str} (hd : isAbs sf.dir = true) (hc : isAbs cwd = true)
-    (h : Designated sf cwd d) : CleanAbs d := by
+    (hp : PhysOk sf) (h : Designated sf cwd d) : CleanAbs d := by
   cases h with
-  | file _ _ => exact cleanAbs_abs hc _
-  | named _ _ _ => exact cleanAbs_abs hc _
-  | glob _ _ _ => exact cleanAbs_abs hc _
+  | file _ _ => exact hp _ (cleanAbs_abs hc _)
+  | named _ _ _ => exact hp _ (cleanAbs_abs hc _)
+  | glob _ _ _ => exact hp _ (cleanAbs_abs hc _)
   | cache => exact cleanAbs_cacheDir hd
 
 /-- on designated paths the code's test `containsSpokfile` is the specification's `protectedPath` -/
 theorem containsSpokfile_designated {sf : SpokFile} {cwd d : Str} (hd : isAbs sf.dir = true) (hc : isAbs cwd = true)
-    (h : Designated sf cwd d) : containsSpokfile d sf.path = protectedPath sf (pathOf d) := by
-  rw [containsSpokfile_cleanAbs (cleanAbs_designated hd hc h) (cleanAbs_path hd)]
+    (hp : PhysOk sf) (h : Designated sf cwd d) : containsSpokfile d sf.path = protectedPath sf (pathOf d) := by
+  rw [containsSpokfile_cleanAbs (cleanAbs_designated hd hc hp h) (cleanAbs_path hd)]
   rfl
 
 theorem isPrefix_trans' {a b c : Path} (h1 : a <+: b) (h2 : b <+: c) : a <+: c := List.IsPrefix.trans h1 h2
@@ -286,5 +289,32 @@ theorem runClean_ok {sf : SpokFile} {cwd : Str} {fs : FS} (h : (runClean sf cwd 
       intro d hd
       have := List.find?_eq_none.1 hfind d hd
       simpa using this
+
+end Spok.Clean
+
+namespace Spok.Clean
+
+/-! ## the link resolution of `Clean.lean` is a `physical`: clean absolute paths in, clean absolute paths out -/
+
+theorem resolveDir_abs (links : List (Str × Str)) : ∀ (fuel : Nat) (cs : List Str) (cur : Str), isAbs cur = true →
+    isAbs (resolveDir links fuel cs cur) = true
+  | 0, _, _, h => by simpa [resolveDir] using h
+  | _ + 1, [], _, h => by simpa [resolveDir] using h
+  | fuel + 1, c :: rest, cur, h => by
+    unfold resolveDir
+    simp only []
+    split
+    · exact resolveDir_abs links fuel rest _ (resolveDir_abs links fuel _ _ rfl)
+    · exact resolveDir_abs links fuel rest _ (cleanAbs_join h).1
+
+theorem physOf_cleanAbs (links : List (Str × Str)) (s : Str) (h : CleanAbs s) : CleanAbs (physOf links s) := by
+  unfold physOf
+  split
+  · exact h
+  · exact cleanAbs_join (resolveDir_abs links _ _ _ rfl)
+
+/-- a spokfile whose `phys` is the link resolution of some world meets `PhysOk` -/
+theorem physOk_physOf (dir : Str) (vars : List (Str × Str)) (tasks : List Task) (links : List (Str × Str)) :
+    PhysOk ⟨dir, vars, tasks, physOf links⟩ := fun s h => physOf_cleanAbs links s h
 
 end Spok.Clean
